@@ -193,7 +193,7 @@ DEFAULT_PROFILE = dict(
     dip_spellings=True, result_dip=False, keyword_params=True, nested_structs=True,
     max_params=5, cb_struct_args=True, opt_slices=True, char=False, ordering=True,
     mut_self=True, opt_mut_oref=True, namespaces=False, byte_slices=True, renames=False,
-    strs_utf8=False, result_prim_err=True, opt_owned=False, write_prob=0.18, cb_opt=True, cb_slices=True, cb_strs=True, cb_aggr_ret=True, traits=False, trait_prob=0.5, held_callbacks=False, self_spelling=True,
+    strs_utf8=False, result_prim_err=True, opt_owned=False, write_prob=0.18, cb_opt=True, cb_slices=True, cb_strs=True, cb_aggr_ret=True, traits=False, trait_prob=0.5, held_callbacks=False, self_spelling=True, opt_strs=True,
 )
 
 
@@ -406,7 +406,8 @@ class Gen:
                 inner = self.pick([("oslice", self.pick(SLICE_PRIMS[:-1])), ("ostr", self.pick(["ustr", "utf8", "u16"]))])
             elif p["opt_slices"] and inner_c < 0.9 and (p["option"] or True):
                 inner = self.pick([("slice", self.pick(SLICE_PRIMS[:-1]), False, None, "std"), ("str", "ustr", None, "std")]
-                                  + ([("str", "utf8", None, "std")] if p["utf8"] else []))
+                                  + ([("str", "utf8", None, "std")] if p["utf8"] else [])
+                                  + ([("strs", self.pick(["ustr", "u16"]))] if (p["strs"] and p["opt_strs"]) else []))
             elif p["option"]:
                 inner = ("prim", self.pick(self.prims()))
             else:
